@@ -980,8 +980,7 @@ inline constexpr void Conversion<Unit::Acceleration, Unit::Acceleration::Microin
 }
 
 template <typename NumericType>
-inline const std::map<Unit::Acceleration,
-                      std::function<void(NumericType* values, const std::size_t size)>>
+inline const ConversionTable<Unit::Acceleration, NumericType>
     MapOfConversionsFromStandard<Unit::Acceleration, NumericType>{
       {Unit::Acceleration::MetrePerSquareSecond,
        Conversions<Unit::Acceleration, Unit::Acceleration::MetrePerSquareSecond>::
@@ -1102,8 +1101,7 @@ inline const std::map<Unit::Acceleration,
 };
 
 template <typename NumericType>
-inline const std::map<Unit::Acceleration,
-                      std::function<void(NumericType* const values, const std::size_t size)>>
+inline const ConversionTable<Unit::Acceleration, NumericType>
     MapOfConversionsToStandard<Unit::Acceleration, NumericType>{
       {Unit::Acceleration::MetrePerSquareSecond,
        Conversions<Unit::Acceleration, Unit::Acceleration::MetrePerSquareSecond>::
